@@ -91,12 +91,14 @@ def templates():
         out.append(['detach', i])
     for how in ('top', 'media', 'via-other-media', 'via-other-top'):
         out.append(['reattach', 0, how])
+    out.append(['detached-append', 0, 'n1', 'urn:n2', 'da1'])
+    out.append(['detached-append', 0, 'p', 'urn:n1', 'da2'])
     return out
 
 
 def random_op(rng):
     k = rng.choice(['ns-set', 'ns-set', 'ns-del', 'add-ns', 'add-ns', 'ins-ns', 'del-nsrule', 'prefix-set', 'uri-set', 'nsrule-text', 'add-style', 'add-style',
-                    'move-rule', 'selector-text', 'del-style', 'sheet-text', 'detach', 'detach', 'reattach', 'reattach'])  # fmt: skip
+                    'move-rule', 'selector-text', 'del-style', 'sheet-text', 'detach', 'detach', 'reattach', 'reattach', 'detached-append'])  # fmt: skip
     if k == 'ns-set':
         return [k, rng.choice(PREFIXES), rng.choice(URIS)]
     if k == 'ns-del':
@@ -124,6 +126,8 @@ def random_op(rng):
         return [k, rng.randrange(4)]
     if k == 'detach':
         return [k, rng.randrange(6)]
+    if k == 'detached-append':
+        return [k, rng.randrange(3), rng.choice(['p', 'n1', 'n2', 'q']), rng.choice(['urn:n1', 'urn:n2', 'urn:u', 'urn:q']), rng.choice(['da1', 'da2'])]
     if k == 'reattach':
         return [k, rng.randrange(3), rng.choice(['top', 'media', 'media-nested', 'via-other-media', 'via-other-top'])]
     return [k, rng.choice(SEEDS + ['zz|a{top:0}', '@namespace p "urn:u"; p|a{top:0} q|b{left:0}'])]
@@ -189,6 +193,7 @@ class NsWalk:
         self.feats = set()
         self.tolerated = set()
         self.detached = []
+        self.ambiguous = set()
 
     def start(self, seed):
         core.canonical_state(self.c)
@@ -305,6 +310,19 @@ class NsWalk:
                 (r.parentRule or sheet).deleteRule(r)
                 self.detached.append((r, want))
                 self.shadow.pop(id(r), None)
+            elif k == 'detached-append':
+                # a selector handed to a detached rule together with its own prefix table: resolved by that table, also when a prefix
+                # means something else in what the rule holds already
+                if not self.detached:
+                    return 'skipped', None
+                i = op[1] % len(self.detached)
+                r, want = self.detached[i]
+                own = dict(r.selectorList._namespaces.items())
+                local = '%s%d' % (op[4], len(self.ops))  # (a name of its own: appending an equal selector replaces the old one, which is list business)
+                r.selectorList.appendSelector(('%s|%s' % (op[2], local), {op[2]: op[3]}))
+                if own.get(op[2], op[3]) != op[3]:
+                    self.ambiguous.add(id(r))  # (its text now uses one prefix for two namespaces: only the resolved pairs say what it means)
+                self.detached[i] = (r, want + [[('el', norm_uri(op[3]), local)]])
             elif k == 'reattach':
                 if not self.detached:
                     return 'skipped', None
@@ -474,6 +492,8 @@ class NsWalk:
             if got != want:
                 self.report('pairs-stable', {'op': op, 'what': 'pairs of a detached rule changed', 'selector': r.selectorText, 'before': want, 'after': got})
                 return False
+            if id(r) in self.ambiguous:
+                continue
             try:
                 seltext = r.selectorText
                 own = dict(r.selectorList._namespaces.items())
